@@ -1,5 +1,5 @@
 """C24 sandboxed code cannot touch files, processes or stdin."""
-REG_DRAFT = dict(
+REG = dict(
     engine='E1-enum',
     technique='exhaustive enumeration of effectful built-in x argument vector x call position x import form x sandbox mode, each run as a real CLI process in a private fixture directory whose tree is hashed before and after',
     text="Every function of __fs.gdn and __shell.gdn (table parsed from the repository at run time), read_line, shell_arguments, every built-in Path method, source_file and built_in_files is called with every argument vector of a pool (existing/missing/absolute/nested path, directory, empty directory, wrong type, arity n-1/n+1; one-position deviations from a primary vector in quick, the full product in thorough) at 7 call positions (top level, function, closure, method, test body, closure passed to map, function reference passed to map), qualified (`ns::f`) and unqualified import, under `playground-run` and `sandboxed-test` (offset inside the test and outside every test); in quick the full position x form x mode cross is run for the primary vector and the other vectors at top level / function / test body. Oracle: for a well-typed call of anything that creates/modifies/deletes/reads files, starts a process or reads stdin the evaluation ends with the sandbox error; in every case the fixture tree (names, kinds, sizes, mtimes, sha1) is unchanged, the canary executables first on PATH did not run, no fixture secret (file content, directory entry name, stdin token) reaches the output, and the process finishes although stdin is a pipe that stays open and silent. A non-sandboxed `garden run` of the same call per function shows each detector firing.",
